@@ -375,4 +375,63 @@ theorem specValue_coll (flipX : V → V) (hf : ∀ a b, flipX (a + b) = flipX a 
   rfl
 end refines
 
+
+/-! ### rigid motion of whole entries / sensors (used by Props/C03 end-to-end statements; added by the audit) -/
+section movedEntries
+variable [Group G] [AddCommGroup V] [DistribMulAction G V]
+
+/-- the rigid motion applied to every leaf of a (nested) source entry -/
+def Entry.moved (Q : G) (t : V) : Entry G V → Entry G V
+  | .leaf s => .leaf (s.moved Q t)
+  | .coll cs => .coll (cs.map (Entry.moved Q t))
+
+theorem Entry.moved_leaves (Q : G) (t : V) (e : Entry G V) :
+    (e.moved Q t).leaves = e.leaves.map (Src.moved Q t) := by
+  induction e using Entry.leaves.induct with
+  | case1 s => simp [Entry.moved, Entry.leaves]
+  | case2 cs ih =>
+    simp only [Entry.moved, Entry.leaves, List.map_map, List.map_flatten]
+    congr 1
+    apply List.map_congr_left
+    intro c hc
+    exact ih c hc
+
+theorem flatMap_leaves_moved (Q : G) (t : V) (entries : List (Entry G V)) :
+    (entries.map (Entry.moved Q t)).flatMap Entry.leaves =
+      (entries.flatMap Entry.leaves).map (Src.moved Q t) := by
+  induction entries with
+  | nil => rfl
+  | cons e es ih => simp only [List.map_cons, List.flatMap_cons, List.map_append, ih, Entry.moved_leaves]
+
+theorem moved_leaves_ne_nil (Q : G) (t : V) (entries : List (Entry G V)) (he : ∀ e ∈ entries, e.leaves ≠ []) :
+    ∀ e ∈ entries.map (Entry.moved Q t), e.leaves ≠ [] := by
+  intro e h
+  obtain ⟨e0, h0, rfl⟩ := List.mem_map.mp h
+  rw [Entry.moved_leaves]
+  simpa using he e0 h0
+
+theorem Sens.moved_WF (Q : G) (t : V) (k : Sens G V) (h : k.WF) : (k.moved Q t).WF := by
+  obtain ⟨h1, h2, h3⟩ := h
+  refine ⟨?_, ?_, ?_⟩
+  · simpa [Sens.moved] using h1
+  · simp [Sens.moved, h2]
+  · simpa [Sens.moved, pixNum] using h3
+
+theorem pathLen_moved (Q : G) (t : V) (ls : List (Src G V)) (ks : List (Sens G V)) :
+    pathLen (ls.map (Src.moved Q t)) (ks.map (Sens.moved Q t)) = pathLen ls ks := by
+  unfold pathLen
+  simp [List.map_map, Function.comp_def, Src.moved, Sens.moved]
+
+omit [DistribMulAction G V] in
+theorem obsSensor_WF (X : List V) : (obsSensor (G := G) X).WF :=
+  ⟨by simp [obsSensor], by simp [obsSensor], by simp [obsSensor, pixNum]⟩
+
+theorem pixPos_obsSensor (X : List V) (m : Nat) : pixPos (obsSensor (G := G) X) m = X := by
+  simp [pixPos, obsSensor, clampGet]
+
+theorem specValue_obsSensor (flipX : V → V) (e : Entry G V) (X : List V) (m : Nat) (x : V) :
+    specValue flipX e (obsSensor (G := G) X) m x = (e.leaves.map fun s => level1 s m x).sum := by
+  simp [specValue, sensT, obsSensor, clampGet]
+end movedEntries
+
 end MagpyVerif.Level2
